@@ -24,6 +24,8 @@ def run(rep, facts):
     rep.rule("R3.7", "conversions at non-final states fail without side effects (Interrupted), final states convert (see R5.1-R5.3)")
     rep.rule("R3.14", "the stream parser's record state is replaced only by the header dispatch and, for the delivering state alone, by a stream switch (R4.5): "
                       "a management body in flight is never cancelled by a call whose timing relative to the chunking the client cannot control")
+    rep.rule("R3.15", "the fatal StuckOnInput verdict of the request parser is taken on the buffer fill left after the drive and the compaction (R6.2): "
+                      "taken on the fill at call entry, the same byte sequence succeeds or fails depending on the chunking")
     rep.rule("R3.9", "the GetValues name-value decoder sees at most the record's remaining payload and the reply is emitted only for a complete body (otherwise the emitted bytes would depend on read chunking)")
     rep.rule("R3.8", "stream::Parser::parse: every successful return passes the processing loop's entry test (no early-out that would leave buffered records unparsed)")
 
@@ -205,6 +207,19 @@ def run(rep, facts):
     for i in sr.instances:
         (rep.ok if i["status"] == "ok" else rep.violation)("R3.14", i["instance"], i["detail"], i["loc"])
 
+    # ---- R3.15: the stuck verdict is a function of what the parser could not consume, not of how full the buffer was on entry ----
+    # (request::Parser::parse latches Fatal(StuckOnInput); decided on the length *after* the drive and the compaction it says "the
+    #  longest unit does not fit", decided on anything else the same bytes succeed or fail depending on the chunking: rule R6.2 of C06)
+    from . import c06
+    sr = check.Report("tmp", "quick")
+    c06.run(sr, facts)
+    n15 = 0
+    for i in sr.instances:
+        if i["rule"] == "R6.2":
+            n15 += 1
+            (rep.ok if i["status"] == "ok" else rep.violation)("R3.15", i["instance"], i["detail"], i["loc"])
+    rep.floor("R3.15", "stuck-verdict instances", n15, 2)
+
     # ---- information only: panic-capable sites -----------------------------------------------------------------
     inv = {}
     for bb in facts.bodies:
@@ -363,11 +378,13 @@ def _contracts():
 
     def c_parse_stream(it, st, args, dty):
         # verified below: ParamsStateInner::parse_stream returns at most data.len()
-        n = it.new_len("consumed", st["ctx"])
+        # (in either spelling of the result: the consumed count, or -- like parse_buffered -- the unconsumed tail of data)
+        as_tail = str(dty or "").lstrip().startswith("&")
+        n = it.new_len("unparsed" if as_tail else "consumed", st["ctx"])
         L = it.slice_len(args[1], st["ctx"])
         if L is not None:
             st["ctx"].add(L - n)
-        return n
+        return ('slice', n) if as_tail else n
 
     def c_parse_buffered(it, st, args, dty):
         # verified below: ParamsStateInner::parse_buffered returns a slice no longer than data
@@ -459,8 +476,13 @@ def run_arith(rep, facts):
                 post_bad.append(("the cursor invariant does not hold on return", e.trace))
             if label == "parse_stream":
                 L = it.slice_len(it.arg_env[2], e.ctx)
-                if not (isinstance(e.ret, Lin) and e.ctx.le(e.ret, L)):
-                    post_bad.append(("the consumed count returned may exceed data.len()", e.trace))
+                if isinstance(e.ret, Lin):
+                    if not e.ctx.le(e.ret, L):
+                        post_bad.append(("the consumed count returned may exceed data.len()", e.trace))
+                else:
+                    Lr = it.slice_len(e.ret, e.ctx) if e.ret is not None else None
+                    if Lr is None or not e.ctx.le(Lr, L):
+                        post_bad.append(("the consumed count returned may exceed data.len()" if Lr is None else "the returned remainder may be longer than data", e.trace))
             if label == "parse_buffered":
                 L = it.slice_len(it.arg_env[2], e.ctx)
                 Lr = it.slice_len(e.ret, e.ctx) if e.ret is not None else None
@@ -774,6 +796,6 @@ def main(rep, tier):
         "error exits of the stream parser (the error repeats, no further output), identical classification of decode failures at the "
         "three header sites, the total error-conversion table, conversions at non-final states; buffer bookkeeping (R3.10), "
         "arithmetic / slicing safety of the framing code (R3.11) and loop progress of both parsers (R3.12 / R3.13: no hang) by path-sensitive abstract "
-        "interpretation in linear cursor forms; necessary conditions of chunking-invariance (R3.9, R3.13 break discipline, R3.14).",
+        "interpretation in linear cursor forms; necessary conditions of chunking-invariance (R3.9, R3.13 break discipline, R3.14, R3.15).",
         not_decided="panics from expect/unwrap on Option/Result values outside the modelled ones (parse_buffered's VarInt arithmetic; inventory in the evidence notes only) "
                     "and chunking-invariance of outcomes beyond the listed necessary conditions")
